@@ -118,6 +118,7 @@ STEP = {
     "rmB": [("rm", "B", "both")],
     "setq": [("setq", 6, 2)],
     "setq1": [("setq", 6, 1)],
+    "setq3": [("setq", 6, 3)],
     "pt": [("pt", 6)],
     "pt_rmA": [("pt", 6), ("rm", "A", "both")],
     "rmA_rmB": [("rm", "A", "both"), ("rm", "B", "both")],
@@ -128,7 +129,7 @@ STEP = {
 }
 
 QUICK = [("A", "rmA"), ("A", "addN"), ("AB", "rmA"), ("AB", "rmB"), ("AgB", "rmAe"), ("AmB", "rmAs"),
-         ("Aq", "setq1"), ("Aq", "pt"), ("AB", "addNs"), ("ABq", "rmB"), ("A", "setq_same"), ("AB", "pt_rmA"),
+         ("Aq", "setq1"), ("Aq", "setq3"), ("Aq", "pt"), ("AB", "addNs"), ("ABq", "rmB"), ("A", "setq_same"), ("AB", "pt_rmA"),
          ("A", "rmAs_rmAe"), ("AgB", "addNe"), ("AmB", "setq")]
 
 
